@@ -273,3 +273,9 @@ for kind, text in [("unary", "`not a`"), ("if", "`if a then b else c`")]:
 
 # c17_preserved_arguments_* (utils::expressions_as_expression on 0..3 argument leaves, result interpreted; harness/src/c17_args.rs) are
 # written but not registered: consuming the Vec<Expression> (into_iter / rfold) drags in the drop glue of the AST, out of memory at 16 GB.
+
+for side, fn in (("left", "BinaryOperator::left_needs_parentheses"), ("right", "BinaryOperator::right_needs_parentheses")):
+    H("c02_prec_%s_nested" % side, "c02_prec::c02_prec_%s_nested" % side, ["C02"], [fn, "BinaryOperator::precedes", "BinaryOperator::get_precedence"],
+      "16 outer operators x three-level %s operands `(x INNER2 y) INNER z` and `x INNER (y INNER2 z)` (16 x 16 inner operators, no Parenthese nodes)" % side,
+      mode="lean", timeout_s=900, mem_gb=16, replay="prec_%s_nested" % side,
+      assumptions=[PREC_NOTE, "the operand itself is written correctly at its own level (structural induction); precedence being a total preorder, the pair (INNER, OUTER) decides"])
